@@ -166,6 +166,17 @@ void ParticleSwarm(const ObjectiveFunction f, const TasDREAM::DreamDomain inside
                 state.cache_best_particle_fvals[assigned[k]] = assigned_fvals[k];
                 state.cache_best_particle_inside[assigned[k]] = assigned_inside[k];
             }
+            // The objective or the domain may have changed since the best positions were found, make sure that the best position
+            // of the swarm is still the best among the best known positions of the particles.
+            for (size_t i=0; i<num_particles; i++) {
+                if (state.cache_best_particle_inside[i] and (not state.cache_best_particle_inside[num_particles] or
+                    state.cache_best_particle_fvals[i] < state.cache_best_particle_fvals[num_particles])) {
+                    std::copy_n(state.best_particle_positions.begin() + i * num_dimensions, num_dimensions,
+                                state.best_particle_positions.begin() + num_particles * num_dimensions);
+                    state.cache_best_particle_fvals[num_particles] = state.cache_best_particle_fvals[i];
+                    state.cache_best_particle_inside[num_particles] = true;
+                }
+            }
         }
         state.cache_initialized = true;
     }
